@@ -22,7 +22,7 @@ ASSUMPTIONS = [
     "Output case is compared case-insensitively (the property fixes which letters are exchanged, not the case).",
     "Translation input that is already encoded with a DNA alphabet (ACGT, ACGTN) is re-targeted by the library to the codon alphabet and is refused when that is not possible: for such input the oracle is 'the same protein as for the text, or an exception' (counted under raised_allowed), never a different protein.",
 ]
-REQUIRED_CLASSES = ["lower-case", "contains-N", "empty-row", "ascii", "ACGT", "ACGTn", "minus-strand", "length-one-interval", "stop-codon", "all-64-codons", "many-intervals", "genomic", "translate-encoded-input"]
+REQUIRED_CLASSES = ["lower-case", "contains-N", "empty-row", "ascii", "ACGT", "ACGTn", "minus-strand", "length-one-interval", "stop-codon", "all-64-codons", "many-intervals", "genomic", "translate-encoded-input", "lazily-read-entries"]
 BOUNDS = {"quick": "revcomp: all 11110 strings of length <= 4 in ASCII and ACGTn; translation: 64 codons + 4096 pairs + 4096 strided triples; 300 sampled per family",
           "thorough": "same exhaustive cores in all three encodings; all 262144 codon triples; 10000 sampled per family"}
 BUDGET_S = {"quick": 200, "thorough": 1500}
@@ -75,6 +75,8 @@ def classify(case):
             cl.append("stop-codon")
         if case.get("encoded"):
             cl.append("translate-encoded-input")
+        if case.get("lazy_entries") and all(rows):
+            cl.append("lazily-read-entries")
         nontrivial = any(len(r) >= 6 for r in rows)
     return nontrivial, cl
 
@@ -158,6 +160,23 @@ def check(case, stats=None):
                         stats.raised_allowed["translate-encoded-input:" + type(ex).__name__] += 1
                 if pe is not None and pe != want:
                     return [Failure("C14:translation-encoded-input", {"encoding": case["encoded"], "rows": rows, "expected": want, "actual": pe})]
+            if case.get("lazy_entries") and all(rows):
+                # the same sequences as entries read lazily from a FASTQ file: two successive sequence operations on the lazily read table
+                import tempfile
+                with tempfile.TemporaryDirectory(prefix="pbtc14", dir="/dev/shm" if os.path.isdir("/dev/shm") else None) as d_:
+                    fq = os.path.join(d_, "x.fq")
+                    with open(fq, "w") as fh:
+                        for i, r_ in enumerate(rows):
+                            fh.write(f"@n{i}\n{r_.upper()}\n+\n{'I' * len(r_)}\n")
+                    ents = bnp.open(fq).read()
+                    once = bnp.sequence.get_reverse_complement(ents)
+                    twice = bnp.sequence.get_reverse_complement(once)
+                    if [x.upper() for x in twice.sequence.tolist()] != [r_.upper() for r_ in rows]:
+                        return [Failure("C14:lazy-entries:reverse-complement-twice", {"rows": rows, "actual": twice.sequence.tolist()})]
+                    want_rc = ["".join(CODON[revcomp(r_.upper())[i:i + 3]] for i in range(0, len(r_), 3)) for r_ in rows]
+                    prot = bnp.sequence.translate_dna_to_protein(bnp.sequence.get_reverse_complement(bnp.open(fq).read()))
+                    if prot.sequence.tolist() != want_rc:
+                        return [Failure("C14:lazy-entries:translate-of-reverse-complement", {"rows": rows, "expected": want_rc, "actual": prot.sequence.tolist()})]
             if case.get("entry"):
                 e = bnp.SequenceEntry(["n%d" % i for i in range(len(rows))], list(rows))
                 p = bnp.sequence.translate_dna_to_protein(e)
@@ -245,7 +264,8 @@ def sampled_case(draw, kind, maxlen):
         return {"kind": kind, "seqs": seqs, "ivs": ivs}
     codon = st.text(alphabet="TCAGtcag", min_size=3, max_size=3)
     rows = draw(st.lists(st.lists(codon, max_size=max(1, maxlen // 3)).map("".join), min_size=1, max_size=6))
-    return {"kind": "translate", "rows": rows, "entry": draw(st.booleans()), "encoded": draw(st.sampled_from([None, "ACGT", "ACGTN"]))}
+    return {"kind": "translate", "rows": rows, "entry": draw(st.booleans()), "encoded": draw(st.sampled_from([None, "ACGT", "ACGTN"])),
+            "lazy_entries": draw(st.integers(0, 3)) == 0}
 
 
 def task_sampled(stats, known_open, kind, n, seed, maxlen):
